@@ -1,5 +1,6 @@
 import Mimium.Model.MirIO
 import Mimium.Model.MirState
+import Mimium.Model.MirWf
 /-! `drv_mir`: the Lean MIR semantics on a dump of the real compiler's MIR (`harness/src/bin/mir.rs`).
 Input line: `id \t times \t inputs \t dump` (inputs as for `drv_prog`: samples separated by `;`, channels by `,`, 16-hex-digit words, `-` = none).
 Output line: `id \t ok <nout> w,w,… | unsupported <what> | stuck <why> | fuel | bad-input` -/
@@ -19,7 +20,15 @@ def staticLine (P : Prog) : String :=
   let labels := fails.map fun g => match P.fns[g]? with
     | some f => s!"{g}:{f.label}"
     | none => s!"{g}:?"
-  s!"stateok {P.fns.length} {ok.length} checked={checked} fail={",".intercalate labels}"
+  let wfFails := idx.filter fun g => match P.fns[g]? with
+    | some f => !wfFn P f (inferWf f)
+    | none => true
+  let wfLabels := wfFails.map fun g => match P.fns[g]? with
+    | some f => s!"{g}:{f.label}"
+    | none => s!"{g}:?"
+  let enc := (P.fns.filter fun f => (Mimium.RustGen.encode f.cfg).isSome).length
+  let fwd := (P.fns.filter fun f => Mimium.RustGen.forward f.cfg && Mimium.RustGen.nested f.cfg).length
+  s!"stateok {P.fns.length} {ok.length} checked={checked} fail={",".intercalate labels} wf={P.fns.length - wfFails.length} wffail={",".intercalate wfLabels} enc={enc} fwdnested={fwd}"
 
 def mirLine (line : String) : String :=
   match line.splitOn "\t" with
